@@ -464,8 +464,8 @@ func c11Cleanup(w *W) {
 }
 
 func init() {
-	Register(&Workload{Prop: "C11", Name: "orchestrator", Faulty: true, MaxSteps: 20000, Run: c11Orchestrator})
+	Register(&Workload{Prop: "C11", Name: "orchestrator", Faulty: true, MaxSteps: 20000, Cells: []int{6}, Run: c11Orchestrator})
 	Register(&Workload{Prop: "C11", Name: "group", MaxSteps: 20000, Run: c11Group})
-	Register(&Workload{Prop: "C11", Name: "pool", Faulty: true, MaxSteps: 20000, Run: c11Pool})
+	Register(&Workload{Prop: "C11", Name: "pool", Faulty: true, MaxSteps: 20000, Cells: []int{2, 3, 9}, Run: c11Pool})
 	Register(&Workload{Prop: "C11", Name: "cleanup", Faulty: true, MaxSteps: 20000, Run: c11Cleanup})
 }
